@@ -271,14 +271,20 @@ theorem getFti_total (fec : Nat) (d : List Nat) (l : LctHeader) (h : HdrInv d l)
     apply Out.isPanic_bind _ _ (getFtiBytes_total fec fti hk)
     intro v _; rfl
 
+theorem pidOfBytes_total (oti : Oti) (p : List Nat) (hk : knownFec oti.fecId = true) :
+    (pidOfBytes oti p).isPanic = false := by
+  simp only [knownFec, decide_eq_true_eq] at hk
+  unfold pidOfBytes
+  simp only [NOCODE, RS28, RS28US, RS2M, RAPTORQ, RAPTOR]
+  rcases hk with h | h | h | h | h | h <;> rw [h] <;> simp only [Nat.reduceEqDiff, if_true, if_false] <;>
+    repeat' split
+  all_goals rfl
+
 theorem getPayloadId_total (oti : Oti) (d : List Nat) (a p : Nat) (h1 : a ≤ p) (h2 : p ≤ d.length)
     (hk : knownFec oti.fecId = true) : (getPayloadId oti d a p).isPanic = false := by
   unfold getPayloadId
-  rw [slice_ok _ _ _ h1 h2]; simp only [Out.bind_ok]
-  repeat' split
-  all_goals first | rfl | skip
-  simp only [knownFec, NOCODE, RS28, RS28US, RS2M, RAPTORQ, RAPTOR, decide_eq_true_eq] at *
-  omega
+  rw [slice_ok _ _ _ h1 h2, Out.bind_ok]
+  exact pidOfBytes_total oti _ hk
 
 end Fti
 
